@@ -42,6 +42,9 @@ def run(tier, replay=None):
     if insp.ok:
         raise vlib.Infra("PsLockInspect: a refused inspector that removes the lock should break OneWriter (vacuous model)")
     insp_trace = [s["_action"].split(" line")[0].lstrip("<") for s in insp.error_trace][1:]
+    loads = vlib.run_tlc("PsLock", "PsLockLoads.cfg", workers=1, timeout=600)
+    if loads.ok or loads.violation != "OneWriter":
+        raise vlib.Infra("PsLockLoads: an inspector that caches the owner's lock should break OneWriter (vacuous model): %s" % loads.violation)
     p = vh(["lock-race", os.path.join(wd, "lock.json"), wd])
     if p.returncode != 0:
         raise vlib.Infra("lock-race: rc=%d %s" % (p.returncode, p.stderr[-1000:]))
@@ -142,6 +145,10 @@ def run(tier, replay=None):
         if not exp_same and got == "accepted":
             viols.append({"key": "C15:accepted-though-changed:%s" % kind,
                           "what": "re-attach was accepted although what would run changed: edit %s" % q["id"], "replay": rp})
+        if o.get("inspector_wrote"):
+            viols.append({"key": "C15:lock:inspector-writes",
+                          "what": "an instance attached read-only (--inspect) next to the live owner of the pipestance wrote to it while running its loop: %s (pair %s)" % (
+                              ", ".join(o["inspector_wrote"][:6]), q["id"]), "replay": rp})
         if o.get("locked_after_ro") == "accepted":
             viols.append({"key": "C15:lock:attach-while-held-after-inspection",
                           "what": "after a read-only attach with edited definitions (%s) a second mrp attached for writing while the first still held the lock (pair %s)" % (
@@ -157,7 +164,8 @@ def run(tier, replay=None):
     kinds = sorted({q["id"].split(":")[1] for q in ps})
     vlib.write_evidence("C15", tier, "model_checking", {
         "states": lk.distinct + len(ps), "transitions": lk.generated + len(ps), "exhaustive": False,
-        "exhaustive_model_runs": ["PsLock (3 instances, Atomic, read-only inspectors): %d states, OneWriter holds" % lk.distinct,
+        "exhaustive_model_runs": ["PsLock (3 instances, Atomic, read-only inspectors that stay and run their loop): %d states, OneWriter (one holder, one instance that believes it may write) holds" % lk.distinct,
+                                  "PsLock with an inspector that reads the owner's lock file into its own cache: OneWriter violated - on the real code every accepted read-only attach runs four loop iterations next to the owner and must leave the directory untouched",
                                   "PsLock with a refused inspector that removes _lock: OneWriter violated by %s - the same sequence (owner, refused read-only attach with edited definitions, write attach) is run on the real code for every pair" % " ; ".join(insp_trace),
                                   "PsLock (2 instances, check-then-write): OneWriter violated by %s - replayed on the real code" % " ; ".join(race_trace)],
         "traces_validated_against_impl": len(ps) + len(lock),
